@@ -41,6 +41,11 @@ var c20Templates = []string{
 	"{{ nothing }}",
 	"{% for i in (1..3) %}{{ i }}{% else %}none{% endfor %}{% for i in nothing %}{{ i }}{% else %}none{% endfor %}",
 	strings.Repeat("0123456789", 50) + "{{ x }}" + strings.Repeat("abcdefghij", 50),
+	// many writes: every index of a 300-write render is a fault point
+	"{% for i in (1..100) %}{{ i }},{% if i == 50 %}{% continue %}{% endif %}x{% endfor %}end",
+	"{% for i in (1..12) %}{% for j in (1..12) %}{{ j }}{% endfor %}{% cycle 'a', 'b', 'c' %}{% endfor %}",
+	"{% tablerow i in (1..40) cols: 7 %}{{ i }}{% endtablerow %}",
+	strings.Repeat("{{ x }}-", 64) + strings.Repeat("y", 70000) + "{{ x }}",
 	"{%- if x -%}\n  {{- x -}}\n{%- endif -%}\n",
 	"{% for i in l -%} {{ i }} {%- endfor %}",
 	"{{ l }}{{ m.k }}{{ bytes }}",
@@ -304,7 +309,7 @@ func init() {
 	explore.Register(&explore.Prop{
 		ID:    "C20",
 		Level: "fault_enumeration",
-		Rule: "every subset of hyphen positions of 6 block skeletons (if, for, raw inside if, capture, unless/else, tablerow: ~1000 templates) and 30 templates covering every tag (incl. tablerow, include, capture, nested loops, cycle, registered tag and block), trim-marker placements, empty output and long text; a fault-free render records the W Write calls and their sizes; then for EVERY k in 0..W-1 the writer fails on call k accepting 0 bytes or a strict prefix (all prefix lengths for calls <=8 bytes (quick) / <=64 (thorough), else 1, len/2, len-1), failing once or forever, through FRender and ParseAndFRender; plus short writes with a nil error (totality only); " +
+		Rule: "every subset of hyphen positions of 6 block skeletons (if, for, raw inside if, capture, unless/else, tablerow: ~1000 templates) and 34 templates (four of them with 100..600 writes or a 70 KB write) covering every tag (incl. tablerow, include, capture, nested loops, cycle, registered tag and block), trim-marker placements, empty output and long text; a fault-free render records the W Write calls and their sizes; then for EVERY k in 0..W-1 the writer fails on call k accepting 0 bytes or a strict prefix (all prefix lengths for calls <=8 bytes (quick) / <=64 (thorough), else 1, len/2, len-1), failing once or forever, through FRender and ParseAndFRender; plus short writes with a nil error (totality only); " +
 			"class = (template, fault kind, partial accept); distinct_nontrivial counts distinct classes",
 		Assumptions: []string{"a writer that returns n < len(p) with a nil error violates io.Writer; only absence of a panic is required there"},
 		Setup:       func(tier string) { c20.eng = c20Engine(); c20Build(tier) },
